@@ -219,3 +219,127 @@ Proof.
     + intros x [<-|Hx]; [left; reflexivity|right; exact Hx].
     + intros p Hp. destruct (Hcells_c p Hp) as [v Hv]. exists v. exact (G2 _ _ Hp Hv).
 Qed.
+
+(* ------------------------------------------------------------------ the loop, by induction on the model's fuel *)
+Definition fix_loop_spec (ext : nat -> list val -> mem -> res (val * mem)) (FUEL f : nat) : Prop :=
+  forall d Fl (mi : mem) sb s cb chrs rslr rsrl raw g ord dir b e N ord' prec prb pre pcb pce pdir,
+    fix_inv mi sb s cb chrs rslr rsrl g ord (dm_outs prec prb pre pcb pce pdir) ->
+    oracle_ok ext s chrs rslr rsrl raw -> raw_ok rslr rsrl raw -> cm_ok (dir_match s chrs raw) N ->
+    (e <= N)%nat -> (N < length chrs)%nat -> (N <= length ord)%nat ->
+    (f <= Fl)%nat -> (f < FUEL)%nat -> (length s < FUEL)%nat -> (N < FUEL)%nat ->
+    dir_fix (dir_match s chrs raw) f ord dir b e = Some ord' ->
+    exists mi' loc',
+      exec (callx ext cprog FUEL (S (S (S (S (f + d)))))) Fl dfix_loop (mkst (fix_locals cb g dir b e prec prb pre pcb pce pdir) mi)
+      = ONormal (mkst loc' mi') /\
+      mem_ext mi mi' (g :: dm_outs prec prb pre pcb pce pdir) /\ int_arr_at mi' g (map Z.of_nat ord').
+
+Lemma nth_app_chain (a : mem) x n : n = length a -> nth_error (a ++ [x]) n = Some x.
+Proof. intros ->. apply nth_error_app_new. Qed.
+Lemma mem_ext_app_r (m a : mem) blk bs : mem_ext m a bs -> mem_ext m (a ++ [blk]) bs.
+Proof. intro H. apply (mem_ext_trans m a _ bs [] bs H (mem_ext_app a blk [])); [apply incl_refl|intros ? []]. Qed.
+
+(* the function from the loop: the six address-taken locals are fresh one-cell blocks *)
+Lemma fix_call_of_loop ext FUEL f : fix_loop_spec ext FUEL f -> fix_call_spec ext FUEL f.
+Proof.
+  intros HL d m sb s cb chrs rslr rsrl raw g ord dir b e N ord' W Hor Hraw Hcm HeN HNc HNo Ho Hi Hgw Hf1 Hf2 Hf3 Hfix.
+  set (L := length m).
+  set (m6 := (((((m ++ [[VUndef]]) ++ [[VUndef]]) ++ [[VUndef]]) ++ [[VUndef]]) ++ [[VUndef]]) ++ [[VUndef]]).
+  assert (E6 : mem_ext m m6 []).
+  { unfold m6. repeat apply mem_ext_app_r. apply mem_ext_refl. }
+  assert (L6 : length m6 = (L + 6)%nat) by (unfold m6; rewrite !app_length; cbn [length]; fold L; lia).
+  assert (Hgl : (g < L)%nat) by (apply nth_error_Some; unfold int_arr_at in Ho; congruence).
+  assert (C6 : forall k, (k < 6)%nat -> nth_error m6 (L + k) = Some [VUndef]).
+  { intros k Hk. unfold m6. destruct k as [|[|[|[|[|[|k]]]]]]; try lia;
+      repeat (first [ apply nth_app_chain; rewrite ?app_length; cbn [length]; fold L; lia
+                    | rewrite nth_error_app_old by (rewrite ?app_length; cbn [length]; fold L; lia) ]). }
+  assert (Wb : forall x, In x (world_blocks sb cb) -> (x < L)%nat).
+  { destruct W as [H1 _ H3 _ H5 _ H7 _ H9 _]. unfold str_at in H1. unfold world_blocks. intros x Hx. cbn [In] in Hx.
+    decompose [or] Hx; subst; try tauto; apply nth_error_Some; congruence. }
+  assert (FI : fix_inv m6 sb s cb chrs rslr rsrl g ord (dm_outs (L + 5) L (L + 1) (L + 2) (L + 3) (L + 4))).
+  { constructor.
+    - apply (world_ext m m6 [] _ _ _ _ _ _ W E6). intros ? [].
+    - apply (mem_ext_get _ _ _ _ _ E6 Ho). intros [].
+    - exact Hi.
+    - exact Hgw.
+    - unfold dm_outs. cbn [In]. lia.
+    - split.
+      + unfold dm_outs. repeat constructor; cbn [In]; lia.
+      + intros p Hp. unfold dm_outs in Hp. cbn [In] in Hp.
+        assert (Hk : exists k, (k < 6)%nat /\ p = (L + k)%nat).
+        { decompose [or] Hp; subst; try tauto; [exists 5%nat|exists 0%nat|exists 1%nat|exists 2%nat|exists 3%nat|exists 4%nat]; lia. }
+        destruct Hk as [k [Hk ->]]. split; [exists VUndef; apply C6; exact Hk|]. intro X. specialize (Wb _ X). lia. }
+  destruct (HL d FUEL m6 sb s cb chrs rslr rsrl raw g ord dir b e N ord' _ _ _ _ _ _ FI Hor Hraw Hcm HeN HNc HNo ltac:(lia) Hf1 Hf2 Hf3 Hfix)
+    as [m' [loc' [E [X O]]]].
+  rewrite callx_S. change (nth_error cprog F_dir_fix) with (Some cf_dir_fix). cbv iota beta.
+  change (fn_nparams cf_dir_fix) with 5%nat. change (fn_nlocals cf_dir_fix) with 11%nat. cbn [length Nat.eqb Nat.sub repeat app].
+  cbn [fn_body cf_dir_fix]. change (SWhile _ _) with dfix_loop.
+  xs. rewrite malloc_ok by lia. xs. rewrite malloc_ok by lia. xs. rewrite malloc_ok by lia. xs. rewrite malloc_ok by lia. xs.
+  rewrite malloc_ok by lia. xs. rewrite malloc_ok by lia. xs. change (Z.to_nat 1) with 1%nat. cbn [repeat].
+  rewrite !app_length. cbn [length]. fold L. fold m6.
+  replace (L + 1 + 1)%nat with (L + 2)%nat by lia. replace (L + 2 + 1)%nat with (L + 3)%nat by lia.
+  replace (L + 3 + 1)%nat with (L + 4)%nat by lia. replace (L + 4 + 1)%nat with (L + 5)%nat by lia.
+  unfold fix_locals in E. replace (VPtr L 0) with (VPtr (L + 0) 0) in E by (f_equal; lia).
+  replace (VPtr L 0) with (VPtr (L + 0) 0) by (f_equal; lia).
+  rewrite E. exists m'. split; [reflexivity|]. split; [|exact O].
+  apply (mem_ext_trans m m6 m' [] _ [g] E6 X); [intros ? []|].
+  intros x [<-|Hx] Hl; [left; reflexivity|]. exfalso. unfold dm_outs in Hx. cbn [In] in Hx. fold L in Hl. lia.
+Qed.
+
+Lemma fix_loop_all ext FUEL : forall f, fix_loop_spec ext FUEL f.
+Proof.
+  induction f as [|f' IH]; intros d Fl mi sb s cb chrs rslr rsrl raw g ord dir b e N ord' prec prb pre pcb pce pdir
+    FI Hor Hraw Hcm HeN HNc HNo HFl Hf1 Hf2 Hf3 Hfix.
+  - rewrite dir_fix_0 in Hfix. discriminate.
+  - pose proof FI as [W Ho Hi Hgw Hgo Hout].
+    pose proof (dw_size _ _ _ _ _ _ _ W) as Hsize.
+    destruct Fl as [|Fl']; [lia|].
+    set (outs := dm_outs prec prb pre pcb pce pdir) in *.
+    change (S f' + d)%nat with (S (f' + d)).
+    set (call := callx ext cprog FUEL (S (S (S (S (S (f' + d))))))).
+    unfold dfix_loop. cbn [fn_body cf_dir_fix]. rewrite exec_while.
+    change (SWhile _ _) with dfix_loop.
+    match goal with |- context [exec call (S Fl') ?bd _] => change bd with dfix_body end.
+    unfold fix_locals at 1. xs.
+    apply dir_fix_inv in Hfix. destruct Hfix as [[Hbe ->]|[(Hbe & Hc & ->)|(r & ord3 & Hbe & Hc & Hrc & Hfix)]].
+    + (* beg >= end *)
+      destruct (Z.ltb_spec (Z.of_nat b) (Z.of_nat e)); [lia|]. xs.
+      eexists mi, _. split; [reflexivity|]. split; [apply mem_ext_refl|exact Ho].
+    + (* no mark matches *)
+      destruct (Z.ltb_spec (Z.of_nat b) (Z.of_nat e)); [|lia]. xs.
+      destruct (tr_dir_match ext FUEL (S (f' + d)) mi sb s cb chrs rslr rsrl raw b e dir prec prb pre pcb pce pdir W ltac:(lia) Hout Hor Hraw Hf2)
+        as [m1 [E1 X1]]. rewrite Hc in E1, X1. unfold dm_args in E1. unfold call. rewrite E1. xs.
+      eexists m1, _. split; [reflexivity|]. split; [apply (mem_ext_weaken _ _ _ _ X1); intros ? []|].
+      apply (mem_ext_get _ _ _ _ _ X1 Ho). intros [].
+    + (* a mark: one iteration, then the loop from r_end *)
+      destruct (Z.ltb_spec (Z.of_nat b) (Z.of_nat e)); [|lia]. xs.
+      destruct (tr_dir_match ext FUEL (S (f' + d)) mi sb s cb chrs rslr rsrl raw b e dir prec prb pre pcb pce pdir W ltac:(lia) Hout Hor Hraw Hf2)
+        as [m1 [E1 X1]]. rewrite Hc in E1, X1. destruct X1 as [X1 RC1]. unfold dm_args in E1. unfold call at 1. rewrite E1. xs.
+      pose proof (Hcm b e dir r Hbe HeN Hc) as Hsp.
+      assert (FI1 : fix_inv m1 sb s cb chrs rslr rsrl g ord outs).
+      { apply (fix_inv_ext mi m1 outs _ _ _ _ _ _ _ ord ord _ FI X1); [intros x Hx; right; exact Hx| |reflexivity|].
+        - apply (mem_ext_get _ _ _ _ _ X1 Ho). exact Hgo.
+        - destruct RC1 as (R1 & R2 & R3 & R4 & R5 & R6). intros p Hp. unfold outs, dm_outs in Hp. cbn [In] in Hp.
+          decompose [or] Hp; subst; try tauto; eexists; eassumption. }
+      destruct (dfix_body_ok ext FUEL f' d (S Fl') m1 sb s cb chrs rslr rsrl raw g ord dir b e N prec prb pre pcb pce pdir r ord3
+                  (fix_call_of_loop ext FUEL f' IH) FI1 RC1 Hsp (dir_match_cdir _ _ _ _ _ _ _ Hc) Hor Hraw Hcm HeN HNc HNo
+                  ltac:(lia) Hf2 Hf3 Hrc) as [m2 [E2 [FI2 X2]]].
+      fold call in E2. unfold fix_locals in E2. rewrite E2.
+      assert (P3 : Permutation ord3 ord).
+      { unfold rec_call in Hrc. destruct (c_rec r).
+        - etransitivity; [exact (dir_fix_perm _ _ _ _ _ _ _ Hrc)|apply step2_perm].
+        - injection Hrc as <-. apply step2_perm. }
+      destruct Hsp as (B1 & B2 & B3 & B4 & B5 & B6).
+      destruct (IH (S d) Fl' m2 sb s cb chrs rslr rsrl raw g ord3 dir (r_end r) e N ord' prec prb pre pcb pce pdir FI2 Hor Hraw Hcm HeN HNc
+                  ltac:(rewrite (Permutation_length P3); exact HNo) ltac:(lia) ltac:(lia) Hf2 Hf3 Hfix) as [m3 [loc3 [E3 [X3 O3]]]].
+      unfold call. replace (S (f' + d)) with (f' + S d)%nat by lia. unfold fix_locals in E3. rewrite E3.
+      eexists m3, _. split; [reflexivity|]. split; [|exact O3].
+      apply (mem_ext_trans mi m2 m3 (g :: outs) (g :: outs) _); [|exact X3|apply incl_refl|intros x Hx _; exact Hx].
+      apply (mem_ext_trans mi m1 m2 outs (g :: outs) _ X1 X2); [apply incl_tl, incl_refl|intros x Hx _; exact Hx].
+Qed.
+
+(* dir_fix(chrs, ord, dir, beg, end), for EVERY oracle that answers rset_find as the matcher function `raw` says, every
+   character-pointer array and every order array: when the model's dir_fix returns ord' within fuel f, the call returns within
+   that many iterations and nested calls, the order array then holds ord', no other block that existed has changed, and every
+   load and store was inside its block *)
+Theorem tr_dir_fix ext FUEL f : fix_call_spec ext FUEL f.
+Proof. apply fix_call_of_loop, fix_loop_all. Qed.
